@@ -54,6 +54,7 @@ class Frame:
         self.kw = kw
         self.path = path        # spec path (list) for bf
         self.obs = []
+        self.script = None      # explicit statement list (TLC-generated behaviours)
         self.key_args = (terms.show(args), terms.show(kw))   # taken before user code can mutate them
         self.wrote = None
         self.n = 0              # statements executed
@@ -89,6 +90,10 @@ class Run:
             root = step.get('root', [])
             if fr.n < len(root):
                 return root[fr.n]
+            return {'s': 'return'}
+        if fr.script is not None:
+            if fr.n < len(fr.script):
+                return fr.script[fr.n]
             return {'s': 'return'}
         key = json.dumps([fr.f, terms.show(fr.ver), fr.key_args[0], fr.key_args[1],
                           fr.path, fr.obs], sort_keys=True)
@@ -203,6 +208,8 @@ class Run:
                 sub.path_recv = path_recv
             else:
                 sub = Frame('sb', f, ver, list(a), dict(k), None)
+            if 'body' in st:
+                sub.script = st['body']
             run.invocations.append((run.build_no, st['s'], f, st.get('p'), terms.show(list(a))))
             e = run.ev(ev='invoke', recv=terms.to_term(list(a)), recvkw=terms.to_term(dict(k)))
             if is_bf:
@@ -281,7 +288,7 @@ class Run:
             elif s == 'write':
                 if fr.kind == 'bf':
                     fn = getattr(fr, 'path_recv', None) or self.sb.path(fr.path)
-                    mt = self.sb.write_file(fn, st['c'], st['sz'])
+                    mt = self.sb.write_file(fn, st['c'], st['sz'], st.get('mt'))
                     fr.wrote = (st['c'], st['sz'], mt)
                     self.ev(ev='write', c=st['c'], sz=st['sz'], mt=mt)
                 fr.obs.append(['w', st['c'], st['sz']])
